@@ -1290,7 +1290,6 @@ where
     /// Send all stored packets for retransmission
     fn send_stored(&mut self) -> Vec<GenericEvent<PacketIdType>> {
         let mut events = Vec::new();
-        let mut resent: usize = 0;
         self.store.for_each(|packet| {
             if packet.size() > self.maximum_packet_size_send as usize {
                 let packet_id = packet.packet_id();
@@ -1306,13 +1305,15 @@ where
                 packet: packet.clone().into(),
                 release_packet_id_if_send_error: None,
             });
-            resent += 1;
             true // Keep in store
         });
-        // Every retransmitted PUBLISH / PUBREL is an incomplete exchange of this connection
-        // and counts against the peer's Receive Maximum.
+        // Every exchange of the resumed session that is still incomplete counts against the
+        // peer's Receive Maximum: the retransmitted PUBLISH / PUBREL packets and a QoS 2
+        // exchange whose PUBREC has arrived but whose PUBREL the application has not sent yet
+        // (it is in no store, but its PUBCOMP will give a slot back).
         if self.publish_send_max.is_some() {
-            self.publish_send_count = resent.min(u16::MAX as usize) as u16;
+            let incomplete = self.pid_puback.len() + self.pid_pubrec.len() + self.pid_pubcomp.len();
+            self.publish_send_count = incomplete.min(u16::MAX as usize) as u16;
         }
 
         events
